@@ -98,6 +98,9 @@ func (m *Model) evalCond(c *Cond) bool {
 		if !ok {
 			return false
 		}
+		if c.Ge {
+			return toInt(v) >= c.Lt
+		}
 		return toInt(v) < c.Lt
 	case c.Obj != "":
 		v := m.objs[c.Obj]
